@@ -2429,24 +2429,32 @@ def ob_tune_acceptance_rate_option():
         am = importlib.import_module("torchtree.inference.hmc.adaptation")
         from torchtree.inference.hmc.integrator import LeapfrogIntegrator
         n = 0
+        # own acceptance sequences: all accepted, all rejected, and periodic ones whose running rate stays strictly on one side of the target
+        patterns = {"accepted": lambda k: True, "rejected": lambda k: False, "1 in 10 accepted": lambda k: k % 10 == 1,
+                    "9 in 10 accepted": lambda k: k % 10 != 0, "1 in 20 accepted": lambda k: k % 20 == 1}
         for target in (0.234, 0.8):
             for stride, offset in ((1, 0), (2, 5), (7, 100)):
-                for accepted, name in ((True, "accepted"), (False, "rejected")):
+                for name, pat in patterns.items():
                     integ = LeapfrogIntegrator("lf", 3, 0.1)
                     a = am.AdaptiveStepSize("a", integ, target, use_acceptance_rate=True)
                     prev = float(integ.step_size)
-                    for k in range(1, 41):
-                        a.learn(torch.tensor(1.0 if accepted else 0.0, dtype=torch.float64), offset + stride * k, accepted)
+                    own = 0
+                    for k in range(1, 61):
+                        accepted = bool(pat(k))
+                        own += accepted
+                        # the acceptance probability of the last proposal is NOT what this option tunes on: give it the opposite of the own rate
+                        a.learn(torch.tensor(0.0 if own / k > target else 1.0, dtype=torch.float64), offset + stride * k, accepted)
                         cur = float(integ.step_size)
                         n += 1
-                        wrong = cur < prev - 1e-15 if accepted else cur > prev + 1e-15
+                        rate = own / k
+                        wrong = (rate > target and cur < prev - 1e-15) or (rate < target and cur > prev + 1e-15)
                         if wrong:
-                            args = {"target": target, "stride": stride, "offset": offset, "accepted": accepted, "call": k}
-                            raise Refuted("AdaptiveStepSize(use_acceptance_rate=True), target %.3g: own proposals all %s (own rate %s target) but call %d with global "
-                                          "iteration %d moved the step size from %.6g to %.6g" % (target, name, "above" if accepted else "below", k, offset + stride * k, prev, cur),
+                            args = {"target": target, "stride": stride, "offset": offset, "pattern": name, "call": k}
+                            raise Refuted("AdaptiveStepSize(use_acceptance_rate=True), target %.3g: own proposals %s (own rate %.3g %s target) but call %d with global "
+                                          "iteration %d moved the step size from %.6g to %.6g" % (target, name, rate, "above" if rate > target else "below", k, offset + stride * k, prev, cur),
                                           witness=args, replay={"kind": "custom", "contract": "C15", "func": "replay_tune_acceptance_rate_option", "args": args}, confirmed=True)
                         prev = cur
-        return {"backend": "concrete", "cases": n, "statement": "%d learn() calls: step size monotone in the direction of (own acceptance rate - target), independent of the global iteration number" % n}
+        return {"backend": "concrete", "cases": n, "statement": "%d learn() calls: the step size never moves against the sign of (own running acceptance rate - target), whatever the global iteration number and the last proposal's acceptance probability" % n}
     return body
 
 
@@ -2602,6 +2610,8 @@ def obligations(tier, seed):
     for rank in ("diag", "dense"):
         o_ = _c16.ob_mass_invariant_adaptor(rank)
         obs.append(Ob("C15.hastings.hmc.mass_invariant.adaptor[%s]" % rank, "B", o_.fn, clause=o_.clause, funcs=F, timeout=120))
+        o_ = _c16.ob_momentum_draw(rank)
+        obs.append(Ob("C15.hastings.hmc.momentum_draw[%s]" % rank, "B", o_.fn, clause="forward proposal density of the HMC operator: " + o_.clause, funcs=F, timeout=120))
     # logged rows / whole runs
     L = "every logged row is self-consistent"
     iters = 3000 if thorough else 300
